@@ -949,3 +949,13 @@ package gomatrixserverlib
 //@   calls CheckKeys response-names-server: serverName == old(serverName) && keys.ServerName == old(serverName)
 //@   calls CheckKeys valid-until-future: unixNano(now) == nowNano
 //@   loop 1: invariant 0 <= idx(1) && idx(1) <= len(allKeys)
+
+//@ func (*PerspectiveKeyFetcher).FetchKeys
+//@   property C12
+//@   requires p != nil && p.Client != nil
+//@   calls mapServerKeysToPublicKeyLookupResult notary-signed: exists k string :: k in p.PerspectiveServerKeys && vjOK(string(p.PerspectiveServerName), k, str(p.PerspectiveServerKeys[k]), str(serverKeys.Raw))
+//@   calls mapServerKeysToPublicKeyLookupResult self-signed: called(CheckKeys) && ret(CheckKeys, 0).AllChecksOK
+//@   calls CheckKeys response-names-server: serverName == keys.ServerName
+//@   calls CheckKeys valid-until-future: unixNano(now) == nowNano
+//@   loop 1: invariant 0 <= idx(1) && idx(1) <= len(serverKeys)
+//@   loop 2: invariant 0 <= idx(2) && idx(2) <= len(keyIDs)
